@@ -6,6 +6,9 @@ import os
 VERIF = os.path.dirname(os.path.dirname(os.path.abspath(__file__)))
 
 CHECKS = {
+    "C08": ("three runtime monitors on real engines and real worker pools: bit-identity of stored samples across repeated seeded runs (fresh interpreters / perturbed generators), audit hook on numpy.random.seed / random.seed recording installed generator states, tagged pre-drawn rows whose consumption is logged (pid, row id) in an append-only file shared with the forked workers",
+            "Held-on-observed: seeded single-process runs repeat bit for bit (standard and multilevel, fixed-date and jump-time); no generator state re-installed after use; every pre-drawn row consumed once across 1, 2, 4 workers and different chunkings; no bit-equal samples.",
+            "Schedules are those the OS produced in the runs (not enumerated); time-outs are inconclusive.", "3/C08"),
     "C20": ("monitors on the real calibration functions with pre-screened problems and deep snapshots of the input model (independent COS repricing of the rebuilt model); Parameters objects driven through generated assignment histories and compared with directly constructed models; constraint probes",
             "Held-on-observed: calibrated value inside the interval, reprices the target, same model type, input untouched (generic, ATM and default calibration for HEM, Merton, VG, CGMY); rebuilt = direct model on density, integrals, exponent, drifts, cumulants after 1..8 assignments; every constrained attribute rejects invalid values and keeps the old one.",
             "Calibration problems inside the C18 box (COS accuracy).", "3/C20"),
